@@ -752,4 +752,51 @@ pub mod verif_hooks {
     pub fn regex_matches_optimized(l: &FieldValue, r: &regex::Regex) -> bool {
         super::regex_matches_optimized(l, r)
     }
+    pub fn is_null(v: &FieldValue) -> bool {
+        super::is_null(v)
+    }
+
+    fn single_context(left: FieldValue) -> crate::interpreter::DataContext<()> {
+        let mut ctx = crate::interpreter::DataContext::new(Some(()));
+        ctx.values.push(left);
+        ctx
+    }
+
+    /// One `(left, right)` pair through `apply_filter_with_static_argument_value` (the path taken
+    /// for a filter whose argument is a query variable): operator dispatch table, `not!`
+    /// negations and the regex precompilation. `true` iff the context survives the filter.
+    pub fn apply_static(
+        filter: &crate::ir::Operation<(), &crate::ir::Argument>,
+        left: FieldValue,
+        right: FieldValue,
+    ) -> bool {
+        let iterator = Box::new(std::iter::once(single_context(left)));
+        super::apply_filter_with_static_argument_value(filter, right, iterator).next().is_some()
+    }
+
+    /// One `(left, right)` pair through `apply_filter_with_tagged_argument_value` (the path taken
+    /// for a filter whose argument is a tag). `true` iff the context survives the filter.
+    pub fn apply_tagged(
+        filter: &crate::ir::Operation<(), &crate::ir::Argument>,
+        left: FieldValue,
+        right: FieldValue,
+    ) -> bool {
+        let iterator = Box::new(std::iter::once((
+            single_context(left),
+            crate::interpreter::TaggedValue::Some(right),
+        )));
+        super::apply_filter_with_tagged_argument_value(filter, iterator).next().is_some()
+    }
+
+    /// One value through `attempt_apply_unary_filter`; `None` when the filter is not unary.
+    pub fn apply_unary(
+        filter: &crate::ir::Operation<(), &crate::ir::Argument>,
+        value: FieldValue,
+    ) -> Option<bool> {
+        let iterator = Box::new(std::iter::once(single_context(value)));
+        match super::attempt_apply_unary_filter(filter, iterator) {
+            Ok(mut output) => Some(output.next().is_some()),
+            Err(_) => None,
+        }
+    }
 }
